@@ -24,6 +24,10 @@ import (
 // which must be a directory.
 // If there is an error, it will be of type *PathError.
 func (f *BasePathFile) Chdir() error {
+	if f == nil {
+		return fs.ErrInvalid
+	}
+
 	err := f.baseFile.Chdir()
 
 	return f.vfs.FromPathError(err)
@@ -32,6 +36,10 @@ func (f *BasePathFile) Chdir() error {
 // Chmod changes the mode of the file to mode.
 // If there is an error, it will be of type *PathError.
 func (f *BasePathFile) Chmod(mode fs.FileMode) error {
+	if f == nil {
+		return fs.ErrInvalid
+	}
+
 	err := f.baseFile.Chmod(mode)
 
 	return f.vfs.FromPathError(err)
@@ -43,6 +51,10 @@ func (f *BasePathFile) Chmod(mode fs.FileMode) error {
 // On Windows, it always returns the syscall.EWINDOWS error, wrapped
 // in *PathError.
 func (f *BasePathFile) Chown(uid, gid int) error {
+	if f == nil {
+		return fs.ErrInvalid
+	}
+
 	err := f.baseFile.Chown(uid, gid)
 
 	return f.vfs.FromPathError(err)
@@ -52,6 +64,10 @@ func (f *BasePathFile) Chown(uid, gid int) error {
 // On files that support SetDeadline, any pending I/O operations will
 // be canceled and return immediately with an error.
 func (f *BasePathFile) Close() error {
+	if f == nil {
+		return fs.ErrInvalid
+	}
+
 	err := f.baseFile.Close()
 
 	return f.vfs.FromPathError(err)
@@ -61,6 +77,10 @@ func (f *BasePathFile) Close() error {
 // The file descriptor is valid only until f.Close is called or f is garbage collected.
 // On Unix systems this will cause the SetDeadline methods to stop working.
 func (f *BasePathFile) Fd() uintptr {
+	if f == nil {
+		return ^(uintptr(0))
+	}
+
 	return f.baseFile.Fd()
 }
 
@@ -73,6 +93,10 @@ func (f *BasePathFile) Name() string {
 // It returns the number of bytes read and any error encountered.
 // At end of file, Read returns 0, io.EOF.
 func (f *BasePathFile) Read(b []byte) (n int, err error) {
+	if f == nil {
+		return 0, fs.ErrInvalid
+	}
+
 	n, err = f.baseFile.Read(b)
 
 	return n, f.vfs.FromPathError(err)
@@ -83,6 +107,10 @@ func (f *BasePathFile) Read(b []byte) (n int, err error) {
 // ReadAt always returns a non-nil error when n < len(b).
 // At end of file, that error is io.EOF.
 func (f *BasePathFile) ReadAt(b []byte, off int64) (n int, err error) {
+	if f == nil {
+		return 0, fs.ErrInvalid
+	}
+
 	n, err = f.baseFile.ReadAt(b, off)
 
 	return n, f.vfs.FromPathError(err)
@@ -99,6 +127,10 @@ func (f *BasePathFile) ReadAt(b []byte, off int64) (n int, err error) {
 // If n <= 0, ReadDir returns all the DirEntry records remaining in the directory.
 // When it succeeds, it returns a nil error (not io.EOF).
 func (f *BasePathFile) ReadDir(n int) ([]fs.DirEntry, error) {
+	if f == nil {
+		return nil, fs.ErrInvalid
+	}
+
 	de, err := f.baseFile.ReadDir(n)
 
 	return de, f.vfs.FromPathError(err)
@@ -117,6 +149,10 @@ func (f *BasePathFile) ReadDir(n int) ([]fs.DirEntry, error) {
 // directory, Readdirnames returns the names read until that point and
 // a non-nil error.
 func (f *BasePathFile) Readdirnames(n int) (names []string, err error) {
+	if f == nil {
+		return nil, fs.ErrInvalid
+	}
+
 	names, err = f.baseFile.Readdirnames(n)
 
 	return names, f.vfs.FromPathError(err)
@@ -128,6 +164,10 @@ func (f *BasePathFile) Readdirnames(n int) (names []string, err error) {
 // It returns the new offset and an error, if any.
 // The behavior of Seek on a file opened with O_APPEND is not specified.
 func (f *BasePathFile) Seek(offset int64, whence int) (ret int64, err error) {
+	if f == nil {
+		return 0, fs.ErrInvalid
+	}
+
 	ret, err = f.baseFile.Seek(offset, whence)
 
 	return ret, f.vfs.FromPathError(err)
@@ -136,6 +176,10 @@ func (f *BasePathFile) Seek(offset int64, whence int) (ret int64, err error) {
 // Stat returns the FileInfo structure describing file.
 // If there is an error, it will be of type *PathError.
 func (f *BasePathFile) Stat() (fs.FileInfo, error) {
+	if f == nil {
+		return nil, fs.ErrInvalid
+	}
+
 	info, err := f.baseFile.Stat()
 
 	return info, f.vfs.FromPathError(err)
@@ -145,6 +189,10 @@ func (f *BasePathFile) Stat() (fs.FileInfo, error) {
 // Typically, this means flushing the file system's in-memory copy
 // of recently written data to disk.
 func (f *BasePathFile) Sync() error {
+	if f == nil {
+		return fs.ErrInvalid
+	}
+
 	err := f.baseFile.Sync()
 
 	return f.vfs.FromPathError(err)
@@ -154,6 +202,10 @@ func (f *BasePathFile) Sync() error {
 // It does not change the I/O offset.
 // If there is an error, it will be of type *PathError.
 func (f *BasePathFile) Truncate(size int64) error {
+	if f == nil {
+		return fs.ErrInvalid
+	}
+
 	err := f.baseFile.Truncate(size)
 
 	return f.vfs.FromPathError(err)
@@ -163,6 +215,10 @@ func (f *BasePathFile) Truncate(size int64) error {
 // It returns the number of bytes written and an error, if any.
 // Write returns a non-nil error when n != len(b).
 func (f *BasePathFile) Write(b []byte) (n int, err error) {
+	if f == nil {
+		return 0, fs.ErrInvalid
+	}
+
 	n, err = f.baseFile.Write(b)
 
 	return n, f.vfs.FromPathError(err)
@@ -172,6 +228,10 @@ func (f *BasePathFile) Write(b []byte) (n int, err error) {
 // It returns the number of bytes written and an error, if any.
 // WriteAt returns a non-nil error when n != len(b).
 func (f *BasePathFile) WriteAt(b []byte, off int64) (n int, err error) {
+	if f == nil {
+		return 0, fs.ErrInvalid
+	}
+
 	n, err = f.baseFile.WriteAt(b, off)
 
 	return n, f.vfs.FromPathError(err)
